@@ -51,6 +51,8 @@ type OpDesc struct {
 	Faults  []Fault `json:"faults"`
 	Ticks   int64   `json:"ticks"`
 	Sidecar string  `json:"sidecar"`
+	// ClockSkewHours shifts simrt.Now (the replacement of time.Now).
+	ClockSkewHours int `json:"clock_skew_hours"`
 }
 
 var (
